@@ -308,6 +308,24 @@ def block_enders(rep, prog, ix, brec, B):
             rep.ok('R13.7')
     if examined < 1:
         rep.broke('only %d RepeatBand functions examined for block ends' % examined)
+    # ---- r is the number of Hellos heard in the block: the receive hook counts every one of them
+    HEARD = 'band_on_hello_received'
+    rep.rule('R13.8', 'every Hello heard adds exactly one to r (the count the back-off formula is applied to), for every r below 2^32-1', floor=1)
+    if HEARD not in allfns:
+        raise AnalysisBroken('anchor function %s vanished' % HEARD)
+    R = ('sym', 'band.r', 0, (1 << 32) - 2)
+
+    def setup_h(I, st):
+        o = mk_obj(st, 'in:band', brec.size, kind='heap', default='sym')
+        o.cells[((), off('r'))] = (4, R)
+        return [Val(ix.parse_type('band_state *'), ('ptr', 'in:band', ZERO))]
+    I, outs = run_entry(prog, AUTOMATA_UNIT, HEARD, setup_h, port=PortModel(), name=HEARD + '[count]', tracked=(R,))
+    collect_failures(rep, I, 'R13.ub')
+    for s2, v in outs:
+        r2 = s2.canon(mem.load_scalar(s2, s2.objs['in:band'], C(off('r')), ix.parse_type('unsigned int')))
+        ok = s2.same(r2, I.simp(('add', R, C(1)))) or (s2.prove_le(r2, ('add', R, C(1))) and s2.prove_le(('add', R, C(1)), r2))
+        rep.check(ok, 'R13.8', 'heard|plus-one', 'after a Hello is heard r is %s where it was %s: not every Hello heard is counted, so the repetition count is computed '
+                  'from fewer Hellos than were heard (r in %s on this path)' % (short(r2), short(R), s2.dom(R)), node=allfns[HEARD], function=HEARD)
     rep.analysed['block_enders_examined'] = examined
 
 
